@@ -1076,4 +1076,35 @@ Module GateWitness.
         intros sv [<-|[]]; simpl; try reflexivity;
         intros v [<-|[]]; reflexivity.
   Qed.
+
+  (* a single fault: the regression's name contains a "." *)
+  Definition A_dot := mkAlg true (Some [114;46;120]) VerOk (Some [R_up]) [] (Some [SV]) true.
+  Definition P_dot := mkPkg [114;111] None None
+                       (Some (mkFac (exp_sig KRegress) (mkBot true [A_dot]))) None.
+  Definition E_dot := [P_up; P_dot].
+
+  Lemma uniq_E_dot : uniq E_dot.
+  Proof.
+    intros p [<-|[<-|[]]]; split; intros k f Hk; destruct k; simpl in Hk; try discriminate;
+      inversion Hk; subst; simpl.
+    - repeat constructor; simpl; intuition discriminate.
+    - intros a [<-|[]]. simpl. repeat constructor; simpl; intuition discriminate.
+    - repeat constructor; simpl; intuition discriminate.
+    - intros a [<-|[]]. simpl. repeat constructor; simpl; intuition discriminate.
+  Qed.
+
+  Lemma prefix_free_E_dot : prefix_free E_dot.
+  Proof.
+    intros i j pi pj Hi Hj Hp.
+    destruct i as [|[|i]], j as [|[|j]]; simpl in *; try reflexivity;
+      try (destruct i; discriminate); try (destruct j; discriminate);
+      inversion Hi; inversion Hj; subst; simpl in Hp; discriminate.
+  Qed.
+
+  Lemma breaks_rule_E_dot : exists p, In p E_dot /\ ~ follows_obs_pkg E_dot p.
+  Proof.
+    exists P_dot. split; [right; left; reflexivity|].
+    intros (_ & _ & _ & (H & _) & _).
+    specialize (H KRegress _ eq_refl A_dot (or_introl eq_refl) _ eq_refl). discriminate H.
+  Qed.
 End GateWitness.
